@@ -52,6 +52,11 @@ def jobs2d(rng, tier):
             t = "".join(rng.choice("ABCDEFGHIJ KLMNOPQ") for _ in range(n))
             L.append("az %d 0 %s" % (pct, J.hx(t)))
             L.append("az %d 0 %s" % (pct, J.hx(J.rand_text(rng, n))))
+        # stuffing-heavy payloads on the automatic path (bit stuffing grows the message after the size was estimated)
+        for n in ((5, 20, 60, 85, 200) if tier == "quick" else (3, 5, 10, 20, 40, 60, 85, 120, 200, 400, 800)):
+            L.append("az %d 0 %s" % (pct, J.hx(b"\xff" * n)))
+            L.append("az %d 0 %s" % (pct, J.hx(b"\x00" * n)))
+            L.append("az %d 0 %s" % (pct, J.hx(bytes(rng.choice([0, 255]) for _ in range(n)))))
         for req in ((-4, -1, 1, 5, 22, 23) if tier == "quick" else list(range(-4, 0)) + list(range(1, 33))):
             L.append("az %d %d %s" % (pct, req, J.hx("AZ%d" % req)))
     # PDF417: codeword counts 1..~900 x levels
